@@ -313,6 +313,8 @@ func main() {
 		"Facts.lean":    func() (string, []string) { return genFacts(repo) },
 		"Pool256.lean":  func() (string, []string) { return genPools(repo, false) },
 		"Pool64.lean":   func() (string, []string) { return genPools(repo, true) },
+		"Lst256.lean":   func() (string, []string) { return genDispatch(repo, false) },
+		"Lst64.lean":    func() (string, []string) { return genDispatch(repo, true) },
 	}
 	names := []string{}
 	for n := range gens {
